@@ -26,3 +26,19 @@ pub assume_specification<'a, const N: usize> [<revm_interpreter::primitives::Fix
         r is Ok ==> fb_bytes::<N>(r->Ok_0) == s@;
 pub assume_specification [<U256 as core::convert::From<B256>>::from] (b: B256) -> (r: U256)
     ensures uval(r) == ru_be_bytes_nat(b256_bytes(b));
+// `&value[..]` on a FixedBytes: derive_more's `Index<I> for FixedBytes<N> where [u8; N]: Index<I>` forwards to the
+// array.  Only the `RangeFull` instantiation is pinned down (the whole byte string); vstd's generic precondition
+// `index_req` is uninterpreted for foreign types and is stated true for `..` (a full-range index cannot fail).
+pub uninterp spec fn fb_index_is<I, const N: usize>(b: revm_interpreter::primitives::FixedBytes<N>, i: I,
+    r: &<revm_interpreter::primitives::FixedBytes<N> as core::ops::Index<I>>::Output) -> bool where [u8; N]: core::ops::Index<I>;
+pub assume_specification<I, const N: usize> [<revm_interpreter::primitives::FixedBytes<N> as core::ops::Index<I>>::index]
+    (b: &revm_interpreter::primitives::FixedBytes<N>, i: I) -> (r: &<revm_interpreter::primitives::FixedBytes<N> as core::ops::Index<I>>::Output)
+    where [u8; N]: core::ops::Index<I>
+    ensures fb_index_is::<I, N>(*b, i, r);
+#[verifier::external_body]
+pub broadcast proof fn axiom_fb_index_req<const N: usize>(b: revm_interpreter::primitives::FixedBytes<N>, i: core::ops::RangeFull)
+    ensures #[trigger] vstd::std_specs::core::IndexSpec::index_req(&b, &i) {}
+#[verifier::external_body]
+pub broadcast proof fn axiom_fb_index_full<const N: usize>(b: revm_interpreter::primitives::FixedBytes<N>, i: core::ops::RangeFull, r: &[u8])
+    ensures #[trigger] fb_index_is::<core::ops::RangeFull, N>(b, i, r) == (r@ == fb_bytes::<N>(b)) {}
+pub broadcast group group_b256 { axiom_fb_len, axiom_fb_index_req, axiom_fb_index_full }
